@@ -12,7 +12,7 @@ from vlib import gen
 from vlib.runner import Engine, viol
 
 PROPERTY = "C14"
-RULE = ("Hypothesis draws 1-3 components, each a template (box 5..12 per side, odd / even / non-cubic; smooth random "
+RULE = ("Hypothesis draws 1-3 components, each a template (box 7..13 per side, odd / even / non-cubic; smooth random "
         "texture confined to the ball inscribed in the box minus 2 voxels) with 1-4 molecules whose pose class is: "
         "grid-coincident with identity orientation (integer pixel position for odd sides, half-integer for even), "
         "fractional, rotated, straddling a face, wholly outside, negative coordinates; a scale, an interpolation "
@@ -165,6 +165,21 @@ def judge(d):
             if not float(np.abs(t3 - tomo).max()) <= 1e-5 * mx:
                 out.append(viol("C14/molecule-order", f"{tag}: result depends on the order of molecules in component {ci}"))
             break
+    # (f') deepest valid single molecule (the 2-D path sizes its own internal volume from the molecule depth)
+    tmpl0 = comps[0][0]
+    half0 = (np.asarray(tmpl0.shape) - 1) / 2
+    deep = np.array([np.floor(vol[0] - 2 - half0[0]), vol[1] / 2 + 0.25, vol[2] / 2 - 0.25])
+    if deep[0] - half0[0] >= 1:
+        one = [(tmpl0, deep[None, :], Rotation.identity(1))]
+        with warnings.catch_warnings():
+            warnings.simplefilter("ignore")
+            p1 = simulate(one, d, vol, two_d=True)
+            w1 = simulate(one, d, vol).astype(np.float64).sum(axis=0)
+        if p1.shape == w1.shape:
+            e = float(np.abs(p1 - w1).max())
+            if not e <= 1e-4 * mx * vol[0]:
+                out.append(viol("C14/2d-not-projection", f"{tag}: single molecule at depth z={deep[0]} px (template {tmpl0.shape}): simulate_2d differs "
+                                f"from the z-projection by {e:.4g} (projection max {np.abs(w1).max():.3g})", err=e))
     # (f) 2-D simulation == z projection, when every fragment lies inside [0, Z)
     inside = True
     for ci, (tmpl, pos, R) in enumerate(comps):
@@ -217,10 +232,10 @@ def cases(draw):
     ncomp = draw(st.integers(1, 3))
     comps = []
     for _ in range(ncomp):
-        shape = draw(gen.box_shapes(5, 12))
+        shape = draw(gen.box_shapes(7, 13))
         mols = [draw(mol_pose(shape, vol)) for _ in range(draw(st.integers(1, 4)))]
         comps.append({"shape": shape, "seed": draw(gen.seeds), "mols": mols})
-    return {"vol": vol, "components": comps, "order": draw(st.sampled_from([0, 1, 3, 3])), "scale": draw(gen.scales)}
+    return {"vol": vol, "components": comps, "order": draw(st.sampled_from([0, 1, 3, 3])), "scale": draw(st.one_of(gen.scales, st.sampled_from([0.2, 0.25, 0.3])))}
 
 
 def nontrivial(d):
